@@ -200,6 +200,14 @@ impl<T> Signal<T> {
         self.state.load(Ordering::Acquire) == UNLOCKED
     }
 
+    /// Resets a finished signal to its initial state so it can be registered
+    /// in the waitlist again, no other thread has access to finished signals.
+    #[inline(always)]
+    #[cfg(feature = "async")]
+    pub(crate) fn reset(&mut self) {
+        *self.state.get_mut() = LOCKED;
+    }
+
     /// Set pointer to data for receiving or sending
     #[inline(always)]
     #[cfg(feature = "async")]
